@@ -11,6 +11,7 @@ import TonVerif.Proofs.Wrappers
 import TonVerif.Proofs.SrcArith2
 import TonVerif.Generated.MsgLayout
 import TonVerif.Proofs.SrcMsg
+import TonVerif.Proofs.SrcMsgSer
 
 namespace TonVerif.Properties.C15
 open TonVerif TonVerif.Model TonVerif.Spec.Tlb TonVerif.Proofs.Message TonVerif.Proofs.MsgBits
@@ -705,12 +706,12 @@ example : Generated.msgInitInline 500 3 100 3 0 1 = false ∧ Generated.msgInitI
 
 end Src
 
-/-! ### the WHOLE deserialize methods (and the leaf serialisers) regenerated from the source (Generated/MsgSrc.lean)
+/-! ### the WHOLE serialize / deserialize methods regenerated from the source (Generated/MsgSrc.lean)
 
 `Generated.MsgSrc.*` are re-translated from tlb/transaction.py, tlb/account.py, tlb/block.py on every run
 (harness/translate/pytlb.py, msgsrc.py). -/
 section SrcWhole
-open TonVerif.Generated.MsgSrc TonVerif.Proofs.SrcMsg
+open TonVerif.Generated.MsgSrc TonVerif.Proofs.SrcMsg TonVerif.Proofs.SrcMsgSer
 
 /-- `c15_src_deserialize`: for EVERY slice the regenerated `MessageAny.deserialize`, `CommonMsgInfo.deserialize` (dispatch on
     `preload_bit` / `preload_bits(2)`), `InternalMsgInfo / ExternalMsgInfo / ExternalOutMsgInfo.deserialize` (tag check, field
@@ -731,40 +732,123 @@ theorem c15_src_deserialize (ops : CellOps R) :
   ⟨message_de_eq ops, info_de_eq, infoInt_de_eq, infoExtIn_de_eq, infoExtOut_de_eq, stateInit_de_eq, tickTock_de_eq, currency_de_eq,
     extra_de_eq⟩
 
-/-- `c15_src_serialize_partial`: the regenerated serialisers that build no intermediate cell object —
-    `ExtraCurrencyCollection.serialize` (`store_dict` of the dictionary root: Maybe bit + reference) and `TickTock.serialize` — are
-    the hand model's builder programs, for all inputs.
-    NOT proved (the full statement): `MessageAny_serialize ops.make m = (Message.serialize ops m).map …`, likewise for StateInit, the
-    three info classes and CurrencyCollection.  These are regenerated, validated against the library and compared with the hand
-    model by evaluation (search hook), but the hand model appends an inline piece without constructing its cell object
-    (`Message.sub`) while the code calls `end_cell()` on it; the equation needs `ops.Total` plus the builder size invariant. -/
-theorem c15_src_serialize_partial (mk : Bits → List R → Option R) :
-    (∀ o : Option R, ExtraCurrencyCollection_serialize mk o = Vm.build mk (BOp.storeMaybeRef o)) ∧
-    (∀ t : TickTock, TickTock_serialize mk t = Vm.build mk (Message.tickTockB t)) :=
-  ⟨extra_ser_eq, tickTock_ser_eq⟩
+/-- `c15_src_serialize`: **the regenerated serialisers ARE the hand model's**, for every message / state-init / currency value /
+    header (`ops.Total`: `end_cell()` of a piece with ≤ 1023 bits and ≤ 4 references does not fail for depth; `ops.Lawful`: a cell
+    shows the bits and references it was built from).  `MessageAny.serialize` as regenerated from tlb/transaction.py — header by
+    `self.info.serialize()` + `store_cell`, the Maybe / Either bits, the init inline-or-reference decision with the room reserved
+    for the body (fix F17), the body inline-or-reference decision, `end_cell()` — raises exactly when `Message.serialize` does and
+    returns the same cell; likewise `StateInit.serialize` (five Maybe fields, the tick-tock piece), `CurrencyCollection.serialize`
+    (Grams + the dictionary piece), the three `*MsgInfo.serialize` (tag, flags, addresses, value piece, fees, lt, at).  So
+    `c15_never_overflows`, `c15_serialize_is_spec_encoding`, `c15_spec_decodes`, `c15_round_trip`, `c15_state_init_serialize`,
+    `c15_currency_serialize` … speak about the regenerated code.
+    The code calls `end_cell()` on every piece before `store_cell`ing it; the hand model appends the piece's bits and refs without
+    building the cell (`Message.sub`): the two agree because every store that returns normally leaves the builder within 1023
+    bits / 4 refs (`SrcMsgSer.Safe`, `sub_bridge`). -/
+theorem c15_src_serialize (ops : CellOps R) (hl : ops.Lawful) (ht : ops.Total) :
+    (∀ m : Msg R, (MessageAny_serialize ops.make m).map (·.cell) = Message.serialize ops m) ∧
+    (∀ s : StateInit R, (StateInit_serialize ops.make s).map (·.cell) = Message.serializeStateInit ops s) ∧
+    (∀ c : Currency R, (CurrencyCollection_serialize ops.make c).map (·.cell) = Message.serializeCurrency ops c) ∧
+    (∀ i : Info R, (Info_serialize ops.make i).map (·.cell) = Message.cellOf ops (Message.infoB i)) ∧
+    (∀ a b c src dest value ihr fwd lt at_, InternalMsgInfo_serialize ops.make (Info.int a b c src dest value ihr fwd lt at_) =
+        Vm.build ops.make (Message.infoB (Info.int a b c src dest value ihr fwd lt at_))) ∧
+    (∀ src dest fee, ExternalMsgInfo_serialize ops.make (Info.extIn src dest fee : Info R) =
+        Vm.build ops.make (Message.infoB (Info.extIn src dest fee))) ∧
+    (∀ src dest lt at_, ExternalOutMsgInfo_serialize ops.make (Info.extOut src dest lt at_ : Info R) =
+        Vm.build ops.make (Message.infoB (Info.extOut src dest lt at_))) ∧
+    (∀ o : Option R, ExtraCurrencyCollection_serialize ops.make o = Vm.build ops.make (BOp.storeMaybeRef o)) ∧
+    (∀ t : TickTock, TickTock_serialize ops.make t = Vm.build ops.make (Message.tickTockB t)) :=
+  ⟨src_message_ser_eq ops hl ht, src_stateInit_ser_eq ops ht, src_currency_ser_eq ops ht, src_info_ser_eq ops ht,
+    fun a b c src dest value ihr fwd lt at_ => infoInt_ser_eq ht a b c src dest value ihr fwd lt at_,
+    fun src dest fee => infoExtIn_ser_eq src dest fee, fun src dest lt at_ => infoExtOut_ser_eq src dest lt at_,
+    extra_ser_eq, tickTock_ser_eq⟩
 
-/-- `c15_src_roundtrip_partial`: the round trip with the REGENERATED parser: under the hypotheses of `c15_round_trip` the hand
-    model's `MessageAny.serialize` returns a cell and the regenerated `MessageAny.deserialize` of that cell's content returns the
-    message.  (Full statement, not proved: the same with the regenerated serialiser, see `c15_src_serialize_partial`.) -/
-theorem c15_src_roundtrip_partial (ops : CellOps R) (hl : ops.Lawful) (ht : ops.Total) (m : Msg R) (hwf : m.info.WF)
+/-- `c15_src_never_overflows`: **the regenerated `MessageAny.serialize` never fails for lack of room**, with the tight bound of
+    `c15_never_overflows`: the header encodes into `ib` bits with `ib + 3 ≤ 1023` (`ib + 2` without a state-init), the state-init's
+    split depth is in range, the body is any cell (0..1023 bits, 0..4 refs).  The returned cell object shows exactly the bits and
+    references the method's builder held. -/
+theorem c15_src_never_overflows (ops : CellOps R) (hl : ops.Lawful) (ht : ops.Total) (m : Msg R)
     {ib : Bits} {ir : List R} (hinfo : encInfo m.info = some (ib, ir))
     (hI : ib.length + (if m.init.isSome then 3 else 2) ≤ 1023)
     (hinit : ∀ s, m.init = some s → (encStateInit s).isSome)
     (hbody : m.body.1.length ≤ 1023 ∧ m.body.2.length ≤ 4) :
-    ∃ c, Message.serialize ops m = some c ∧
-      (MessageAny_deserialize ops.view ⟨(ops.view c).1, (ops.view c).2⟩).2 = some m := by
-  obtain ⟨c, hs, hd⟩ := c15_round_trip ops hl ht m hwf hinfo hI hinit hbody
-  refine ⟨c, hs, ?_⟩
-  rw [(c15_src_deserialize ops).1]
-  exact hd
+    ∃ p, MessageAny_serialize ops.make m = some p ∧ ops.view p.cell = (p.bits, p.refs) := by
+  have h := c15_never_overflows ops hl ht m hinfo hI hinit hbody
+  rw [← src_message_ser_eq ops hl ht] at h
+  cases hp : MessageAny_serialize ops.make m with
+  | none => simp [hp] at h
+  | some p => exact ⟨p, rfl, message_built_view ops hl ht m hp⟩
 
-/-- `c15_src_never_overflows_partial`: what the regenerated code contributes to "never overflows": the parser side needs no size
-    hypothesis at all (it is the hand model's parser on every slice); the writer side is `c15_never_overflows` about the hand
-    model, tied to the source by the layout decision lines (`c15_src_layout_tests`) and by sampled correspondence. -/
-theorem c15_src_never_overflows_partial (ops : CellOps R) (c : R) :
-    (MessageAny_deserialize ops.view ⟨(ops.view c).1, (ops.view c).2⟩).2 = Message.deserialize ops c := by
-  rw [(c15_src_deserialize ops).1]
-  rfl
+/-- the bound is tight for the regenerated code too: `mBig` has a valid 1021-bit header and a state-init; the regenerated
+    `MessageAny.serialize` raises; without the state-init (`ib + 2 ≤ 1023`) it returns -/
+example : MessageAny_serialize tops.make mBig = none ∧ (MessageAny_serialize tops.make { mBig with init := none }).isSome = true := by
+  have h1 := src_message_ser_eq tops tops_lawful tops_total mBig
+  have h2 := src_message_ser_eq tops tops_lawful tops_total { mBig with init := none }
+  have e1 : (Message.serialize tops mBig).isSome = false := by decide +kernel
+  have e2 : (Message.serialize tops { mBig with init := none }).isSome = true := by decide +kernel
+  rw [← h1] at e1; rw [← h2] at e2
+  constructor
+  · cases h : MessageAny_serialize tops.make mBig with
+    | none => rfl
+    | some p => simp [h] at e1
+  · simpa using e2
+
+/-- `c15_src_roundtrip`: **regenerated serialiser, then regenerated parser = identity**, for every message in the property's
+    domain (the hypotheses of `c15_round_trip`): `MessageAny.serialize` as regenerated returns a cell, and `MessageAny.deserialize`
+    as regenerated, run on a slice of that cell (`begin_parse()` shows `ops.view cell` = the bits and references the builder held),
+    returns the message. -/
+theorem c15_src_roundtrip (ops : CellOps R) (hl : ops.Lawful) (ht : ops.Total) (m : Msg R) (hwf : m.info.WF)
+    {ib : Bits} {ir : List R} (hinfo : encInfo m.info = some (ib, ir))
+    (hI : ib.length + (if m.init.isSome then 3 else 2) ≤ 1023)
+    (hinit : ∀ s, m.init = some s → (encStateInit s).isSome)
+    (hbody : m.body.1.length ≤ 1023 ∧ m.body.2.length ≤ 4) :
+    ∃ p, MessageAny_serialize ops.make m = some p ∧
+      (MessageAny_deserialize ops.view ⟨(ops.view p.cell).1, (ops.view p.cell).2⟩).2 = some m ∧
+      (MessageAny_deserialize ops.view ⟨p.bits, p.refs⟩).2 = some m := by
+  obtain ⟨c, hs, hd⟩ := c15_round_trip ops hl ht m hwf hinfo hI hinit hbody
+  obtain ⟨p, hp, hv⟩ := c15_src_never_overflows ops hl ht m hinfo hI hinit hbody
+  have hc : p.cell = c := by
+    have := src_message_ser_eq ops hl ht m
+    rw [hp, hs] at this
+    simpa using this
+  have h1 : (MessageAny_deserialize ops.view ⟨(ops.view p.cell).1, (ops.view p.cell).2⟩).2 = some m := by
+    rw [(c15_src_deserialize ops).1, hc]; exact hd
+  refine ⟨p, hp, h1, ?_⟩
+  rw [hv] at h1; exact h1
+
+/-- non-vacuity: `m0` (extra currencies + 3-reference state-init + body with a reference: the F17 shape) meets every hypothesis -/
+example : ∃ p, MessageAny_serialize tops.make m0 = some p ∧ (MessageAny_deserialize tops.view ⟨p.bits, p.refs⟩).2 = some m0 := by
+  obtain ⟨⟨ib, ir⟩, h⟩ := Option.isSome_iff_exists.mp (show (encInfo m0.info).isSome = true by decide +kernel)
+  have hlen : Enc.nbits (encInfo m0.info) + 3 ≤ 1023 := by decide +kernel
+  rw [(enc_some_sizes h).1] at hlen
+  have hwf : m0.info.WF := by simp [m0, Info.WF, AddrWF]
+  have hinit : ∀ s, m0.init = some s → (encStateInit s).isSome := by
+    intro s hs; simp [m0] at hs; subst hs; decide +kernel
+  obtain ⟨p, hp, _, h2⟩ := c15_src_roundtrip tops tops_lawful tops_total m0 hwf h (by simpa [m0] using hlen) hinit (by simp [m0])
+  exact ⟨p, hp, h2⟩
+
+/-- `c15_src_layout_connected`: the inline / reference decisions of the regenerated WHOLE method are the regenerated decision LINES
+    (`Generated/MsgLayout.lean`, `c15_src_layout_tests`): the regenerated `MessageAny.serialize` equals the chain
+    `SrcMsgSer.serializeR` (info piece, `initR`, `bodyR`, `end_cell`), and `initR` / `bodyR` take the inline branch exactly when
+    `Generated.msgInitInline` / `Generated.msgBodyInline` hold at `available_bits = 1023 - used`, `available_refs = 4 - refs`. -/
+theorem c15_src_layout_connected (ops : CellOps R) (ht : ops.Total) (m : Msg R) (s : StateInit R) (body : Chunk R) (b : Builder R) :
+    MessageAny_serialize ops.make m = serializeR ops m ∧
+    initR ops (some s) body b =
+      ((Vm.run (BOp.storeBit true) b).bind fun b1 => (Vm.build ops.make (Message.stateInitB s)).bind fun ic =>
+        if Generated.msgInitInline (Py.Tlb.availableBits b1) (Py.Tlb.availableRefs b1) ic.bits.length ic.refs.length body.1.length body.2.length
+        then Vm.run (BOp.storeBit false ⊳ BOp.storeCell ic.bits ic.refs) b1
+        else Vm.run (BOp.storeBit true ⊳ BOp.storeRef ic.cell) b1) ∧
+    bodyR ops body b =
+      (if Generated.msgBodyInline (Py.Tlb.availableBits b) (Py.Tlb.availableRefs b) body.1.length body.2.length
+       then Vm.run (BOp.storeBit false ⊳ BOp.storeCell body.1 body.2) b
+       else (ops.make body.1 body.2).bind fun bc => Vm.run (BOp.storeBit true ⊳ BOp.storeRef bc) b) := by
+  refine ⟨message_ser_eq ops ht m, ?_, ?_⟩
+  · simp only [initR, (c15_src_layout_tests _ _ _ _ _ _).2.1, Py.Tlb.availableBits, Py.Tlb.availableRefs]
+    refine congrArg _ (funext fun b1 => congrArg _ (funext fun ic => ?_))
+    have hE : (body.2 = []) ↔ body.2.length = 0 := by cases body.2 <;> simp
+    simp only [hE, Bool.and_eq_true, Bool.or_eq_true, decide_eq_true_eq, and_assoc]
+  · simp only [bodyR, (c15_src_layout_tests _ _ 0 0 _ _).2.2, Py.Tlb.availableBits, Py.Tlb.availableRefs, Bool.and_eq_true, decide_eq_true_eq]
+    have : ((body.2.length : Int) ≤ 4 - (b.refs.length : Int)) ↔ body.2.length + b.refs.length ≤ 4 := by omega
+    simp only [this]
 
 end SrcWhole
 
